@@ -438,6 +438,34 @@ pub fn run(prop: &str, seed: u64, n: usize, outdir: &str, _corpus: Option<&str>)
             *dist.entry(format!("text_edit_outcome_{}", code)).or_default() += 1;
             sh.push_h(format!("seed:{}:text", sub), tterm, thuman);
         }
+        if prop == "C10" && out.built == 0 {
+            // third stream: arbitrary mapping sequences (not only permutations) on the accepted dictionary
+            let seqv = |rng: &mut Rng, n: usize| -> Vec<u16> {
+                let len = (n as i64 - 1 + rng.range(-1, 1)).max(0) as usize;
+                let mut v: Vec<u16> = if rng.chance(1, 2) { let mut p: Vec<u16> = (1..n as u16).collect(); rng.shuffle(&mut p); p } else { (0..len).map(|_| rng.below(n as u64 + 1) as u16).collect() };
+                if rng.chance(1, 2) && v.len() >= 2 { let k = rng.below(v.len() as u64) as usize; v[k] = v[(k + 1) % v.len()]; } // repeat one id (omit another)
+                v
+            };
+            let (lm, rm) = (seqv(&mut rng, gd.nleft), seqv(&mut rng, gd.nright));
+            if let Outcome::Ok(d) = gd.build() {
+                let (l2, r2) = (lm.clone(), rm.clone());
+                let mapped = guarded(move || d.map_connection_ids_from_iter(l2, r2));
+                let code = match &mapped { Outcome::Ok(_) => 0, Outcome::Err => 1, Outcome::Panic => 2 };
+                let mut souts: Vec<(u8, bool)> = vec![];
+                if let Outcome::Ok(d) = mapped {
+                    let unk_cats: std::collections::BTreeSet<u32> = d.verif_unk_entries().iter().map(|e| e.0 as u32).collect();
+                    let uncovered: Vec<bool> = sentences.iter().map(|s| s.chars().any(|ch| !unk_cats.contains(&d.verif_char_info(ch).1))).collect();
+                    let t = vibrato::Tokenizer::new(d);
+                    for (s, unc) in sentences.iter().zip(uncovered) {
+                        let r = std::panic::catch_unwind(std::panic::AssertUnwindSafe(|| { let mut w = t.new_worker(); w.reset_sentence(s); w.tokenize(); w.num_tokens() }));
+                        souts.push((if r.is_ok() { 0 } else { 2 }, unc));
+                    }
+                }
+                let mterm = format!("(C10Map {} {} {} {} {} {} {})", sub, gd.nleft, gd.nright, clist(&lm, |x| cn(x)), clist(&rm, |x| cn(x)), code, clist(&souts, |(o, u)| format!("({}, {})", o, cbool(*u))));
+                *dist.entry(format!("mapping_outcome_{}", code)).or_default() += 1;
+                sh.push_h(format!("seed:{}:map", sub), mterm, format!("lmap={:?} rmap={:?} on {}", lm, rm, out.human));
+            }
+        }
         if sh.push_h(format!("seed:{}", sub), out_term, out.human.clone()) && samples.len() < 2 {
             samples.push(format!("{{\"case\":{}}}", json_str(&out.human)));
         }
